@@ -7,8 +7,8 @@ def run(ctx):
     vf.forbidden_scan(ctx); vf.proof_obligations(ctx)
     if ctx.tier == 'thorough': vf.coqchk(ctx, 'C16')
     if not ok: vf.finish(ctx)
-    n = 3000 if ctx.quick() else 200000
-    runs = [('default', ['fresh', str(n), '1']), ('default', ['fresh', str(max(50, n // 20)), '8']), ('default', ['stress', '8', str(max(200, n // 10))]), ('alt', ['fresh', str(max(100, n // 10)), '1'])]
+    n = 6000 if ctx.quick() else 120000
+    runs = [('default', ['fresh', str(n), '1']), ('default', ['fresh', str(max(50, n // 20)), '8']), ('default', ['stress', '8', str(max(200, n // 40))]), ('alt', ['fresh', str(max(100, n // 10)), '1'])]
     for cfg, args in runs:
         r = vf.sh([vf.harness_bin('concd', cfg)] + args, timeout=6000)
         vals = {}; fails = []
